@@ -1,0 +1,62 @@
+package ledger
+
+import (
+	"os"
+	"path/filepath"
+
+	"github.com/cosmos/iavl"
+	"github.com/rigochain/rigo-go/types/xerrors"
+	tmdb "github.com/tendermint/tm-db"
+)
+
+// RollbackTo brings the ledger store `name` under `dbDir` back to `version`.
+//
+// The stores of the application are saved one after the other when a block is committed.
+// If the process dies in the middle, the stores saved before that moment are one version ahead of
+// the block the application reports to the consensus engine, and replaying that block on them
+// applies it twice (or stops at the version checks of Commit).
+// Dropping the version saved for the interrupted block makes the replay start from the same state
+// as the first execution did.  A store that is not ahead of `version` is left as it is.
+func RollbackTo(name, dbDir string, version int64) xerrors.XError {
+	if _, err := os.Stat(filepath.Join(dbDir, name+".db")); os.IsNotExist(err) {
+		return nil
+	}
+
+	db, err := tmdb.NewDB(name, "goleveldb", dbDir)
+	if err != nil {
+		return xerrors.From(err)
+	}
+	remove := false
+	defer func() {
+		_ = db.Close()
+		if remove {
+			_ = os.RemoveAll(filepath.Join(dbDir, name+".db"))
+		}
+	}()
+
+	tree, err := iavl.NewMutableTree(db, 0)
+	if err != nil {
+		return xerrors.From(err)
+	}
+	latest, err := tree.Load()
+	if err != nil {
+		return xerrors.From(err)
+	}
+	if latest <= version {
+		return nil
+	}
+	if latest != version+1 {
+		// only the block being committed can be ahead; anything else is not a trace of an interrupted commit.
+		return xerrors.NewOrdinary("ledger '" + name + "' is more than one version ahead of the last committed block")
+	}
+
+	if version == 0 {
+		// the very first block was interrupted: nothing has been committed yet.
+		remove = true
+		return nil
+	}
+	if _, err := tree.LoadVersionForOverwriting(version); err != nil {
+		return xerrors.From(err)
+	}
+	return nil
+}
